@@ -18,13 +18,18 @@ RULE = (
     "Hypothesis draws an object kind (Array2D unmasked / masked, Kernel2D, Mask2D, Array1D unmasked / masked, "
     "Mask1D, Imaging), a shape 1..7 x 1..7 (1xN, Nx1, square, non-square) or length 1..9, finite float64 values "
     "(reals in [-1e3,1e3] mixed with 0, 1e-300, 1e300, 5e-324, DBL_MAX and negatives), a constructive mask, "
-    "isotropic or anisotropic pixel scales in [0.05,5], flip_for_ds9 in {false,true} (set per case through "
+    "pixel scales by class (isotropic; anisotropic with independent components; anisotropic with |sy-sx| < 1e-8; "
+    "anisotropic with relative difference 1e-12..1e-9; both components tiny (1e-12..1e-9) with a factor 2-3 between "
+    "them; components ordinary 0.05..5, tiny 1e-15..1e-5, large 10..1e12, or arbitrary doubles), "
+    "flip_for_ds9 in {false,true} (set per case through "
     "conf.instance and restored), a path kind (absolute, missing nested directory, relative nested, './name', "
     "pathlib, bare name with cwd = the per-case temp dir) and, for the paths/imaging sub-checks, a pre-existing-"
     "file scenario. Every file lives in a per-case tempfile.mkdtemp() directory removed in a finally. Oracles: "
     "write->read round trip must return array_equal native values, the same shape, the same booleans (masks), "
     "zeros at masked pixels and (through from_primary_hdu on the in-memory HDU and on the HDU re-opened from "
-    "the written file) the written pixel scales (rtol 1e-12: a FITS card holds a 20-character decimal); the raw "
+    "the written file) EXACTLY the written pixel-scale pair (==; only a double whose repr exceeds the 20-character "
+    "FITS card value field, i.e. a 16-17 digit number in exponent form, is compared with rtol 1e-13 on routes that "
+    "serialise the header, labelled scales:card-truncated); the raw "
     "file / HDU data read with astropy must equal flipud(native) iff the flip option is on (2D); multi-HDU "
     "files assembled with astropy must read back the object at its HDU index and the decoys in the orientation "
     "implied by the option; Mask2D invert / resized_mask_shape on input must equal numpy inversion / the "
@@ -32,9 +37,17 @@ RULE = (
     "a second write without overwrite must raise and leave the file bytes unchanged (also when only one of an "
     "Imaging dataset's three target files pre-exists), with overwrite the file must be byte-identical to a fresh "
     "write of the new content; missing directories are created and relative / "
-    "bare names resolve against cwd. Non-trivial: 2D case whose native array differs from its up-down flip and "
+    "bare names resolve against cwd; reread: a path is written (repository writer, or an astropy multi-HDU file "
+    "with EXPTIME / DATE-OBS / TIME-OBS cards and the object at index k), read, replaced by different content "
+    "(other shape, pixel scale, values, HDU layout, exposure cards), read again twice through drawn path forms "
+    "(relative / absolute, str / Path), optionally restored and read again, with an optional twin path of equal "
+    "content: every read (from_fits values and shape, loaded.header.header_sci_obj / header_hdu_obj item lists, "
+    "NAXISn, PIXSCALE cards, exposure_time / date / time, array_2d_util.header_obj_from for every HDU) must "
+    "equal what a fresh astropy open of the file shows at that moment and what was written; relative names "
+    "recur across cases with different cwd, so a memo keyed on the path string is also stale across cases. Non-trivial: 2D case whose native array differs from its up-down flip and "
     "is non-square; 1D case whose native array differs from its reversal; paths/imaging case with a scenario "
-    "other than a fresh write to an absolute path. Distinct = SHA-1 of the canonical case."
+    "other than a fresh write to an absolute path; every reread case (the replacement always differs in shape and "
+    "pixel scale). Distinct = SHA-1 of the canonical case."
 )
 ASSUMPTIONS = [
     "astropy.io.fits is the reference reader/writer for the raw content of a FITS file or HDU",
@@ -42,8 +55,12 @@ ASSUMPTIONS = [
     "and is read by the repository at every write/read; it is restored after every case",
     "each (sub-check, shard) runs in its own forked process, so os.chdir into the per-case temp dir is process-local "
     "and is undone in a finally",
-    "pixel scales read from a header are compared with rtol 1e-12 (FITS float cards are 20 characters wide); "
-    "values are compared exactly (float64 is stored losslessly, BITPIX=-64)",
+    "astropy writes a float header value as repr(value) cut to the 20-character card field: probed exact for every "
+    "double whose repr is <= 20 characters (0.050000004, 2.4e-09, 4.84813681109536e-06, 1.000000000001) and off by "
+    "<= 5e-14 relative otherwise (2.4000000000000004e-09: 1.7e-16, 1.2345678901234568e-300: 4.6e-14); the in-memory "
+    "HDU keeps the Python float, so that route is always exact; values are exact (BITPIX=-64)",
+    "a FITS file may be replaced by any writer between two reads in one process; the reference for what a read must "
+    "return is a fresh astropy open at that moment",
     "Imaging.from_fits re-normalises the PSF (use_normalized_psf default), so the Imaging PSF is compared with "
     "rtol 1e-14 to the already-normalised PSF that was written; data and noise map exactly",
 ]
@@ -53,7 +70,13 @@ KINDS_2D = ["array2d", "array2d-masked", "kernel2d", "mask2d"]
 KINDS_1D = ["array1d", "array1d-masked", "mask1d"]
 PATH_KINDS_MAIN = ["abs", "nested", "rel-nested", "pathlib"]
 PATH_KINDS_ALL = ["abs", "nested", "rel-nested", "dot", "pathlib", "bare", "pathlib-bare"]
-SCALE_RTOL = 1e-12
+CARD_RTOL = 1e-13  # a float whose repr needs more than 20 characters is truncated by the FITS card (>= 14 digits kept)
+
+
+def card_exact(v):
+    """True when astropy stores the float losslessly in a header card: its shortest repr fits the 20-character
+    value field (probed: 4.84813681109536e-06 exact, 2.4000000000000004e-09 off by 1.7e-16 relative)."""
+    return len(repr(float(v))) <= 20
 
 
 def _aa():
@@ -229,19 +252,30 @@ def cmp_values(ctx, kind, route, got_obj, want, flip, what=""):
     ctx.equal(got, want, base + "/values", "%s %s %s flip=%s" % (what, kind, route, flip))
 
 
+def scale_matches(ctx, g, w, through_card):
+    """Exact, unless the value went through a serialised header card that cannot hold its repr (rtol CARD_RTOL)."""
+    if through_card and not card_exact(w):
+        ctx.label("scales:card-truncated")
+        return abs(g - w) <= CARD_RTOL * abs(w)
+    return g == w
+
+
 def cmp_scales(ctx, kind, route, got_obj, want, what=""):
+    """Routes 'hdu' (in-memory header, Python float kept as is) and '*-arg' (scale passed by the caller) are exact;
+    routes that serialise the header to a file follow the card rule above."""
     base = "%s/%s" % (short_kind(kind), route)
+    through_card = not (route == "hdu" or route.endswith("-arg"))
     try:
         got = tuple(float(v) for v in got_obj.pixel_scales)
     except Exception:
         ctx.fail(base + "/pixel-scale", "%s pixel_scales unreadable: %r" % (what, getattr(got_obj, "pixel_scales", None)))
         return
-    ok = len(got) == len(want) and all(abs(g - w) <= SCALE_RTOL * abs(w) for g, w in zip(got, want))
+    ok = len(got) == len(want) and all(scale_matches(ctx, g, w, through_card) for g, w in zip(got, want))
     ctx.comparisons += 1
     if ok:
         return
     if (len(want) == 2 and want[0] != want[1] and len(got) == 2
-            and all(abs(g - want[0]) <= SCALE_RTOL * abs(want[0]) for g in got)):
+            and all(abs(g - want[0]) <= CARD_RTOL * abs(want[0]) for g in got)):
         # design finding 3: only PIXSCALE = y-scale reaches the header
         ctx.fail("aniso-header", "%s %s via %s: anisotropic pixel scales %s read back from the header as %s"
                  % (what, kind, route, want, got))
@@ -270,6 +304,24 @@ def write_file(ctx, kind, obj, path, path_kind, overwrite=False):
         raise
 
 
+def scale_labels(ctx, scales):
+    sc = [float(v) for v in scales]
+    if len(sc) == 2:
+        sy, sx = sc
+        ctx.label("scales:iso" if sy == sx else "scales:aniso")
+        if sy != sx:
+            if abs(sy - sx) < 1e-8:
+                ctx.label("scales:aniso-absdiff<1e-8")
+            if abs(sy - sx) <= 1e-9 * max(abs(sy), abs(sx)):
+                ctx.label("scales:aniso-reldiff<=1e-9")
+    if min(sc) < 1e-5:
+        ctx.label("scales:tiny<1e-5")
+    if max(sc) > 1e3:
+        ctx.label("scales:large>1e3")
+    if not all(card_exact(v) for v in sc):
+        ctx.label("scales:long-repr")
+
+
 def labels_for(ctx, spec, want, flip, path_kind=None):
     kind = spec["kind"]
     ctx.label("kind:" + kind, "flip:%s" % ("on" if flip else "off"))
@@ -279,11 +331,12 @@ def labels_for(ctx, spec, want, flip, path_kind=None):
         h, w = want.shape
         ctx.label("shape:1xN" if h == 1 and w > 1 else "shape:Nx1" if w == 1 and h > 1 else
                   "shape:square" if h == w else "shape:nonsquare")
-        ctx.label("scales:iso" if spec["scales"][0] == spec["scales"][1] else "scales:aniso")
+        scale_labels(ctx, spec["scales"])
         asym = not np.array_equal(want, np.flipud(want))
         ctx.label("content:flip-asymmetric" if asym else "content:flip-symmetric")
         nt = asym and h != w
     else:
+        scale_labels(ctx, spec["scales"])
         asym = not np.array_equal(want, want[::-1])
         ctx.label("content:reverse-asymmetric" if asym else "content:reverse-symmetric")
         nt = asym
@@ -438,24 +491,69 @@ def obj2d(draw, kinds=KINDS_2D, hi=7):
     return spec
 
 
+def _dec(text):
+    """float of a short decimal literal: its repr is at most as long as the literal, so it fits a FITS card."""
+    return float(text)
+
+
+@st.composite
+def scale_value(draw, classes=("ordinary", "any-float", "tiny", "large", "ordinary", "any-float")):
+    """One pixel scale: ordinary (0.05..5, <= 4 digits), tiny (1e-12..1e-5, radian-like), large (10..1e12), or an
+    arbitrary double in [1e-12, 1e9] (17-digit repr; in exponent form it does not fit a header card)."""
+    cls = draw(st.sampled_from(list(classes)))
+    if cls == "ordinary":
+        return draw(st.one_of(st.sampled_from([0.05, 0.1, 0.5, 1.0, 2.0]),
+                              st.integers(50, 5000).map(lambda k: _dec("%de-3" % k))))
+    if cls == "tiny":
+        return _dec("%de%d" % (draw(st.integers(1, 9999)), draw(st.integers(-15, -8))))
+    if cls == "large":
+        return _dec("%de%d" % (draw(st.integers(1, 9999)), draw(st.integers(1, 9))))
+    # doubles below 1e-4 print in exponent form with up to 17 digits (22-23 characters): the card-truncation class
+    return draw(st.one_of(st.floats(1e-9, 1e9, allow_nan=False, allow_infinity=False),
+                          st.floats(1e-12, 9e-5, allow_nan=False, allow_infinity=False)))
+
+
 @st.composite
 def scales2d(draw):
-    """[sy, sx]: isotropic or (half of the cases) anisotropic with sy != sx."""
-    pick = st.one_of(st.sampled_from([0.05, 0.1, 0.5, 1.0, 2.0]), st.floats(0.05, 5.0))
-    sy = draw(pick)
-    if draw(st.booleans()):
+    """[sy, sx] by class: isotropic; anisotropic with independent components; anisotropic with |sy-sx| < 1e-8
+    (an absolute offset of 1e-9..9.9e-9 or below, on an ordinary or tiny base); anisotropic with relative difference
+    1e-12..1e-9; both components tiny with a factor 2-3 between them (e.g. 2.4e-9, 4.8e-9)."""
+    from decimal import Decimal
+    cls = draw(st.sampled_from(["iso", "aniso", "aniso", "near-abs", "near-rel", "tiny-factor"]))
+    if cls == "iso":
+        sy = draw(scale_value())
         return [sy, sy]
-    sx = draw(pick)
-    if sx == sy:
-        sx = sy * 1.5 if sy * 1.5 <= 5.0 else sy / 2.0
-    return [sy, sx]
+    if cls == "aniso":
+        sy, sx = draw(scale_value()), draw(scale_value())
+        if sx == sy:
+            sx = sy * 2.0
+        return [sy, sx]
+    if cls == "near-abs":
+        sy = draw(scale_value(classes=("ordinary", "tiny")))
+        d = Decimal("%de%d" % (draw(st.integers(1, 99)), draw(st.sampled_from([-10, -10, -11, -13, -16]))))
+        sx = float(Decimal(repr(sy)) + (d if draw(st.booleans()) else -d))
+        if sx <= 0.0 or sx == sy:
+            sx = float(Decimal(repr(sy)) + d)
+        return [sy, sx] if draw(st.booleans()) else [sx, sy]
+    if cls == "near-rel":
+        sy = _dec("%de%d" % (draw(st.integers(1, 99)), draw(st.integers(-9, 3))))
+        f = Decimal(1) + Decimal("%de%d" % (draw(st.integers(1, 9)), draw(st.sampled_from([-12, -11, -10, -9]))))
+        sx = float(Decimal(repr(sy)) * f)
+        if sx == sy:
+            sx = sy * (1.0 + 1e-9)
+        return [sy, sx] if draw(st.booleans()) else [sx, sy]
+    m = draw(st.integers(1, 999))
+    e = draw(st.integers(-12, -9))
+    k = draw(st.sampled_from([2, 3]))
+    sy, sx = _dec("%de%d" % (m, e)), _dec("%de%d" % (m * k, e))
+    return [sy, sx] if draw(st.booleans()) else [sx, sy]
 
 
 @st.composite
 def obj1d(draw, kinds=KINDS_1D, hi=9):
     kind = draw(st.sampled_from(kinds))
     n = draw(st.integers(1, hi))
-    spec = {"kind": kind, "shape": [n], "scales": [draw(gens.pixel_scales(iso=True))[0]]}
+    spec = {"kind": kind, "shape": [n], "scales": [draw(scale_value())]}
     if kind != "mask1d":
         spec["values"] = draw(values_list(n))
     if kind != "array1d":
@@ -800,7 +898,8 @@ def imaging_cases(draw):
     case = {"ds": ds, "flip": draw(st.booleans()), "scenario": scen,
             "path": draw(st.sampled_from(["rel-nested", "pathlib", "abs", "nested", "bare", "dot", "rel-nested", "pathlib"]))}
     if scen == "one-exists-no-overwrite":
-        case["which"] = draw(st.sampled_from(["noise_map", "psf", "data"]))
+        case["which"] = draw(st.sampled_from(["psf", "noise_map", "data", "psf"] if ds["psf"] is not None
+                                             else ["noise_map", "data"]))
     if scen.startswith("exists"):
         old = draw(imaging_spec(hi=4))
         if old["shape"] == ds["shape"]:
@@ -814,6 +913,206 @@ def imaging_cases(draw):
         case["old"] = old
     return case
 
+# ---------------------------------------------------------------------------------------------
+# sub-check: reread (same path written, read, replaced by different content and read again in one process)
+# ---------------------------------------------------------------------------------------------
+REREAD_KINDS = ["array2d", "kernel2d", "array1d", "mask2d", "array2d-masked", "mask1d"]
+PATH_FORMS = ["rel-str", "abs-str", "rel-Path", "abs-Path"]
+
+
+def path_form(tmp, rel, form):
+    p = rel if form.startswith("rel") else os.path.join(tmp, rel)
+    return pathlib.Path(p) if form.endswith("Path") else p
+
+
+def header_items(h):
+    return [(k, v) for k, v in h.items()]
+
+
+def stage(tmp, spec, tag):
+    """Raw stored data and header exactly as the repository writes them for `spec` (single-HDU staging file)."""
+    fits = _fits()
+    obj, want = build(spec)
+    p = os.path.join(tmp, "stage", "%s.fits" % tag)
+    obj.output_to_fits(file_path=p)
+    raw, _ = raw_read(p)
+    with fits.open(p, memmap=False) as hl:
+        header = hl[0].header.copy()
+    os.remove(p)
+    return obj, want, raw, header
+
+
+def put(tmp, rel, content, first):
+    """Create / replace the file at tmp/rel.  layout 'repo': the repository writer (overwrite=True when the file
+    exists); layout 'multi': an astropy-written HDUList with the object at index k, decoys elsewhere and
+    observation cards (EXPTIME, DATE-OBS, TIME-OBS) in the primary header."""
+    fits = _fits()
+    where = os.path.join(tmp, rel)
+    spec, lay = content["obj"], content["layout"]
+    obj, want, raw, header = stage(tmp, spec, "x")
+    if lay["kind"] == "repo":
+        obj.output_to_fits(file_path=rel if lay.get("write_rel", True) else where, overwrite=not first)
+        return want, 0, 1
+    k = int(lay["k"])
+    arrays = [np.asarray(d["values"], dtype=float).reshape(d["shape"]) for d in lay["decoys"]]
+    arrays.insert(k, None)
+    hdus = []
+    for i, a in enumerate(arrays):
+        data = raw if a is None else a
+        hdr = header.copy() if a is None else fits.Header()
+        if i == 0:
+            hdr["EXPTIME"] = float(lay["exptime"])
+            hdr["DATE-OBS"] = lay["date"]
+            hdr["TIME-OBS"] = lay["time"]
+        hdus.append(fits.PrimaryHDU(data, header=hdr) if i == 0 else fits.ImageHDU(data, header=hdr))
+    os.makedirs(os.path.dirname(where), exist_ok=True)
+    fits.HDUList(hdus).writeto(where, overwrite=True)
+    return want, k, len(arrays)
+
+
+def verify(ctx, tmp, rel, form, content, want, k, nh, flip, stage_name):
+    """Everything read now from tmp/rel must describe the file as it is now (fresh astropy open = reference)."""
+    aa = _aa()
+    fits = _fits()
+    from autoarray.structures.arrays import array_2d_util
+    spec, lay = content["obj"], content["layout"]
+    kind = spec["kind"]
+    scales = want_scales(spec)
+    where = os.path.join(tmp, rel)
+    path = path_form(tmp, rel, form)
+    what = "%s (%s, %s)" % (stage_name, form, lay["kind"])
+    with fits.open(where, memmap=False) as hl:
+        ref = [hl[i].header.copy() for i in range(len(hl))]
+    ctx.check(len(ref) == nh, "harness/reread-layout", "file has %d HDUs, expected %d" % (len(ref), nh))
+
+    loaded = read_file(kind, path, scales, hdu=k)
+    cmp_values(ctx, kind, "reread", loaded, want, flip, what)
+
+    # header_obj_from, every HDU
+    for j in range(nh):
+        got = array_2d_util.header_obj_from(file_path=path, hdu=j)
+        ctx.check(header_items(got) == header_items(ref[j]), "reread/header_obj_from",
+                  lambda: "%s: header_obj_from(hdu=%d) = %s but the file now holds %s"
+                  % (what, j, header_items(got)[:12], header_items(ref[j])[:12]))
+
+    hdr = getattr(loaded, "header", None)
+    if is_mask(kind):
+        return
+    ctx.check(hdr is not None and hdr.header_sci_obj is not None and hdr.header_hdu_obj is not None,
+              "reread/%s/header-missing" % short_kind(kind), "%s: from_fits returned no header objects" % what)
+    if hdr is None or hdr.header_sci_obj is None or hdr.header_hdu_obj is None:
+        return
+    sci, hh = hdr.header_sci_obj, hdr.header_hdu_obj
+    base = "reread/%s" % short_kind(kind)
+    ctx.check(header_items(sci) == header_items(ref[0]), base + "/header-sci",
+              lambda: "%s: loaded.header.header_sci_obj = %s but HDU 0 of the file now holds %s"
+              % (what, header_items(sci)[:12], header_items(ref[0])[:12]))
+    ctx.check(header_items(hh) == header_items(ref[k]), base + "/header-hdu",
+              lambda: "%s: loaded.header.header_hdu_obj = %s but HDU %d of the file now holds %s"
+              % (what, header_items(hh)[:12], k, header_items(ref[k])[:12]))
+    # the entries a caller actually uses, against what was written (not only against the fresh open)
+    naxis = [hh.get("NAXIS%d" % (i + 1)) for i in range(want.ndim)]
+    ctx.check(naxis == list(want.shape)[::-1], base + "/header-hdu",
+              "%s: header_hdu_obj NAXISn %s, data shape %s" % (what, naxis, want.shape))
+    if "PIXSCALEY" in hh and "PIXSCALEX" in hh:
+        got_sc = (hh["PIXSCALEY"], hh["PIXSCALEX"])
+    else:
+        got_sc = tuple([hh.get("PIXSCALE")] * len(scales))
+    ok = all(g is not None and scale_matches(ctx, float(g), w, True) for g, w in zip(got_sc, scales))
+    ctx.check(ok, base + "/header-hdu-pixel-scale",
+              "%s: pixel scale cards %s in loaded.header.header_hdu_obj, file was written with %s" % (what, got_sc, scales))
+    if lay["kind"] == "multi":
+        ctx.check(hdr.exposure_time == float(lay["exptime"]), base + "/header-sci-exposure",
+                  "%s: header.exposure_time %r, file has %r" % (what, hdr.exposure_time, lay["exptime"]))
+        ctx.check(hdr.date_of_observation == lay["date"] and hdr.time_of_observation == lay["time"],
+                  base + "/header-sci-exposure", "%s: observation date/time %r %r, file has %r %r"
+                  % (what, hdr.date_of_observation, hdr.time_of_observation, lay["date"], lay["time"]))
+    else:
+        ctx.check("EXPTIME" not in sci, base + "/header-sci-exposure",
+                  "%s: header_sci_obj has EXPTIME=%r but the file has no such card" % (what, sci.get("EXPTIME")))
+
+
+def body_reread(case, ctx):
+    flip = bool(case["flip"])
+    a, b = case["a"], case["b"]
+    rel = case["rel"]
+    f1, f2, f3 = case["forms"]
+    with sandbox(flip) as tmp:
+        kind = a["obj"]["kind"]
+        ctx.label("kind:" + kind, "flip:%s" % ("on" if flip else "off"), "layouts:%s->%s" % (a["layout"]["kind"], b["layout"]["kind"]),
+                  "form-first:" + f1, "form-after-replace:" + f2, "twin:%s" % ("yes" if case["twin"] else "no"),
+                  "rel:" + ("nested" if "/" in rel else "flat"))
+        scale_labels(ctx, a["obj"]["scales"])
+        ctx.nt(True)
+        want_a, ka, na = put(tmp, rel, a, first=True)
+        twin_rel = None
+        if case["twin"]:
+            twin_rel = os.path.join("twin_dir", os.path.basename(rel))
+            put(tmp, twin_rel, a, first=True)
+        verify(ctx, tmp, rel, f1, a, want_a, ka, na, flip, "first read")
+        if twin_rel:
+            verify(ctx, tmp, twin_rel, f1, a, want_a, ka, na, flip, "first read of the twin path (equal content)")
+        want_b, kb, nb = put(tmp, rel, b, first=False)
+        verify(ctx, tmp, rel, f2, b, want_b, kb, nb, flip, "read after the path was replaced")
+        verify(ctx, tmp, rel, f3, b, want_b, kb, nb, flip, "second read after the path was replaced")
+        if twin_rel:
+            verify(ctx, tmp, twin_rel, f2, a, want_a, ka, na, flip, "twin path after the other path was replaced")
+        if case["back"]:
+            put(tmp, rel, a, first=False)
+            verify(ctx, tmp, rel, f1, a, want_a, ka, na, flip, "read after the first content was restored")
+
+
+@st.composite
+def layout(draw, two_d):
+    if draw(st.booleans()):
+        return {"kind": "repo", "write_rel": draw(st.booleans())}
+    nd = draw(st.sampled_from([1, 2, 1, 0]))
+    decoys = []
+    for _ in range(nd):
+        if two_d:
+            h, w = draw(st.integers(1, 3)), draw(st.integers(1, 3))
+            decoys.append({"shape": [h, w], "values": draw(values_list(h * w))})
+        else:
+            n = draw(st.integers(1, 4))
+            decoys.append({"shape": [n], "values": draw(values_list(n))})
+    return {"kind": "multi", "k": draw(st.sampled_from(list(range(nd, -1, -1)))), "decoys": decoys,
+            "exptime": draw(st.sampled_from([1.0, 565.0, 1200.5, 0.25, 30000.0])) + draw(st.integers(0, 9)),
+            "date": draw(st.sampled_from(["2000-01-01", "2011-06-15", "2024-12-31"])),
+            "time": draw(st.sampled_from(["00:00:00", "12:34:56", "23:59:59"]))}
+
+
+@st.composite
+def reread_cases(draw):
+    kind = draw(st.sampled_from(REREAD_KINDS))
+    two_d = kind in KINDS_2D
+    mk = (lambda: draw(obj2d(kinds=[kind], hi=4))) if two_d else (lambda: draw(obj1d(kinds=[kind], hi=5)))
+    oa, ob = mk(), mk()
+    oa.pop("resized", None)
+    ob.pop("resized", None)
+    if ob["shape"] == oa["shape"]:  # the replacement differs in shape ...
+        if two_d:
+            h, w = ob["shape"]
+            if "values" in ob:
+                ob["values"] = ob["values"] + draw(values_list(w))
+            if "mask" in ob:
+                ob["mask"] = [list(r) for r in ob["mask"]] + [[False] * w]
+            ob["shape"] = [h + 1, w]
+        else:
+            if "values" in ob:
+                ob["values"] = ob["values"] + draw(values_list(1))
+            if "mask" in ob:
+                ob["mask"] = list(ob["mask"]) + [False]
+            ob["shape"] = [ob["shape"][0] + 1]
+    if ob["scales"] == oa["scales"]:    # ... and in pixel scale
+        ob["scales"] = [v * 2.0 for v in ob["scales"]]
+    la, lb = draw(layout(two_d)), draw(layout(two_d))
+    if la["kind"] == "multi" and lb["kind"] == "multi" and lb["exptime"] == la["exptime"]:
+        lb["exptime"] = la["exptime"] + 17.0
+    return {"a": {"obj": oa, "layout": la}, "b": {"obj": ob, "layout": lb}, "flip": draw(st.booleans()),
+            "rel": draw(st.sampled_from(["target.fits", "sub/target.fits", "data.fits"])),
+            "forms": [draw(st.sampled_from(PATH_FORMS)) for _ in range(3)],
+            "twin": draw(st.booleans()), "back": draw(st.booleans())}
+
 
 SUBCHECKS = [
     SubCheck("roundtrip2d", body_roundtrip, strategy=roundtrip2d_cases(),
@@ -825,5 +1124,7 @@ SUBCHECKS = [
     SubCheck("paths", body_paths, strategy=paths_cases(),
              examples={"quick": 1600, "thorough": 24000}, shards={"quick": 4, "thorough": 16}),
     SubCheck("imaging", body_imaging, strategy=imaging_cases(),
-             examples={"quick": 800, "thorough": 8000}, shards={"quick": 4, "thorough": 8}),
+             examples={"quick": 600, "thorough": 8000}, shards={"quick": 2, "thorough": 8}),
+    SubCheck("reread", body_reread, strategy=reread_cases(),
+             examples={"quick": 400, "thorough": 6000}, shards={"quick": 2, "thorough": 8}),
 ]
